@@ -75,6 +75,8 @@ def explore(cfg, env0, funcs=None, on_node=None, max_states=20000, start=None, u
                 if p and p not in pinned:
                     try:
                         env2[p] = A.ev(a.value, env, funcs)
+                        if isinstance(env2[p], list):
+                            env2[p] = tuple(env2[p])
                         hash(env2[p])
                     except (A.NotClosed, TypeError, AttributeError, IndexError, KeyError, ValueError):
                         env2.pop(p, None)
@@ -241,3 +243,65 @@ def traces(cfg, env0, call_key, funcs=None, max_states=20000, returns=False):
     e0['@trace'] = ()
     explore(cfg, e0, funcs=funcs, on_node=on_node, on_unknown=unk, max_states=max_states)
     return results
+
+
+def run_function(cfg, fn, args, funcs=None, env=None):
+    """the value `fn` returns for the closed arguments `args`, by constant propagation through its CFG.  Raises
+    NotClosedTest when a test cannot be decided and A.NotClosed when the outcome is not a single closed value."""
+    params = [a.arg for a in fn.args.args]
+    if len(args) > len(params):
+        raise A.NotClosed('arity')
+    env0 = dict(env or {})
+    nd_ = len(fn.args.defaults)
+    for i, p_ in enumerate(params):
+        if i < len(args):
+            v = args[i]
+        else:
+            k = i - (len(params) - nd_)
+            if k < 0:
+                raise A.NotClosed('missing argument %s' % p_)
+            v = A.ev(fn.args.defaults[k], {})
+        if isinstance(v, list):
+            v = tuple(v)
+        env0[p_] = v
+    outs = []
+
+    def on_node(nd, e):
+        if nd.kind == 'return':
+            if nd.ast.value is None:
+                outs.append(None)
+            else:
+                v = A.ev(nd.ast.value, e, funcs)
+                outs.append(tuple(v) if isinstance(v, list) else v)
+        if nd is cfg.exit and not any(l != 'exc' for p in cfg.nodes for s_, l in p.succ if s_ is nd and p.kind == 'return'):
+            pass
+
+    def unk(nd, e):
+        raise NotClosedTest(ast.unparse(nd.ast) if nd.ast is not None else '?')
+    visited = explore(cfg, env0, funcs=funcs, on_node=on_node, on_unknown=unk)
+    # falling off the end returns None
+    fell = any(cfg.nodes[i].kind != 'return' and any(s_ is cfg.exit and l != 'exc' for s_, l in cfg.nodes[i].succ) for i in visited)
+    if fell:
+        outs.append(None)
+    vals = []
+    for o in outs:
+        if o not in vals:
+            vals.append(o)
+    if len(vals) != 1:
+        raise A.NotClosed('%s: %d outcomes' % (fn.name, len(vals)))
+    return vals[0]
+
+
+def helper_oracles(ctx, modname, funcs=None):
+    """funcs for ev/explore in which every module-level function of `modname` that is not in the reference list (a helper
+    a refactoring introduced) is answered by constant propagation through its own body"""
+    from . import normalize as NZ
+    base = NZ.baseline_funcs().get(modname) or set()
+    out = dict(funcs or {})
+    m = ctx.mod(modname)
+    for st in m.tree.body:
+        if isinstance(st, ast.FunctionDef) and st.name not in base and st.name not in out:
+            def call(*args, _f=st):
+                return run_function(ctx.cfg(_f), _f, list(args), out)
+            out[st.name] = call
+    return out
